@@ -40,6 +40,16 @@ def is_subred(tc0, data):
             and len(data) >= len(before) + len(after)):
         return False
     body = data[len(before):len(data) - len(after)] if after else data[len(before):]
+    # greedy pass first (exact whenever it succeeds; linear): keep a part if it is next in the body, else drop it
+    i, ok = 0, True
+    for p, r in zip(parts, red):
+        if body.startswith(p, i):
+            i += len(p)
+        elif not r:
+            ok = False
+            break
+    if ok and i == len(body):
+        return True
     pos = {0}
     for p, r in zip(parts, red):
         nxt = set()
@@ -80,6 +90,10 @@ class Explorer:
         if run.exc == "Hang":
             self.ck.violation(f"{strategy} did not finish within the watchdog budget (spinning without running a "
                               f"test, or hung) after {run.tests} tests", replay_doc(ctx, run))
+            self.hangs = getattr(self, "hangs", 0) + 1
+            if self.hangs >= 3:
+                # every further hanging run costs a full watchdog period: stop exploring, the verdict is already clear
+                raise RuntimeError("three runs hung: exploration stopped (the violations found so far are reported)")
         if model and run.exc not in ("CapHit", "Hang"):
             used = "".join(a for _, _, a in run.seen)
             self.lines.append(model_line(strategy, cfg, ctx["tc"], file0, used, clock, extra=extra,
@@ -140,6 +154,12 @@ def last_accepted(ctx, run):
 
 
 def oracle_c01(ck, ctx, run):
+    if getattr(run, "stale", None):
+        k, got, exp = run.stale[0]
+        ck.violation(f"{ctx['strategy']}: test {k} did not see the candidate proposed for it: the file had {got} bytes, the "
+                     f"candidate has {exp} (a verdict about another file than the one that may be kept)",
+                     replay_doc(ctx, run, test=k))
+        return
     if run.exc is not None:
         return
     want = last_accepted(ctx, run)
